@@ -1611,7 +1611,10 @@ func (t *Tokenizer) readPunctuation() (models.Token, error) {
 		if t.pos.Index < len(t.input) {
 			nextR, _ := utf8.DecodeRune(t.input[t.pos.Index:])
 			if nextR == '$' || isIdentifierStart(nextR) {
-				// Try to read the opening tag
+				// Try to read the opening tag. If it turns out not to be one, the
+				// cursor goes back to just after the $ so that the word that
+				// follows is tokenized on its own instead of being swallowed.
+				afterDollar := t.pos.Clone()
 				tagStart := t.pos.Index
 				if nextR == '$' {
 					// $$ case - empty tag
@@ -1624,6 +1627,7 @@ func (t *Tokenizer) readPunctuation() (models.Token, error) {
 						}
 						if !isIdentifierChar(cr) {
 							// Not a valid tag, treat as standalone $
+							t.pos = afterDollar
 							return models.Token{Type: models.TokenTypePlaceholder, Value: "$"}, nil
 						}
 						t.pos.AdvanceRune(cr, cs)
@@ -1631,10 +1635,12 @@ func (t *Tokenizer) readPunctuation() (models.Token, error) {
 				}
 				// Check for closing $ of the tag
 				if t.pos.Index >= len(t.input) {
+					t.pos = afterDollar
 					return models.Token{Type: models.TokenTypePlaceholder, Value: "$"}, nil
 				}
 				closingR, closingSize := utf8.DecodeRune(t.input[t.pos.Index:])
 				if closingR != '$' {
+					t.pos = afterDollar
 					return models.Token{Type: models.TokenTypePlaceholder, Value: "$"}, nil
 				}
 				tag := string(t.input[tagStart:t.pos.Index])
